@@ -1,270 +1,17 @@
 import HvsrVerif.Props.C05
-import HvsrVerif.Model.Plots
+import HvsrVerif.Proofs.PlotsLemmas
 /-!
 # C20 — Plots and summary tables are read-only and show the object's state
 
-Model: `Model/Plots.lean` (on top of `Model/HvState.lean`, `Model/HvAz.lean`, `Model/Stats.lean`).
+Model: `Model/Plots.lean` (on top of `Model/HvState.lean`, `Model/HvAz.lean`, `Model/Stats.lean`);
+helper lemmas: `Proofs/PlotsLemmas.lean`.
 matplotlib / pandas are trusted to store what they are given; an axes is the list of its artists.
 -/
 namespace HV.C20
 open HV Classical
 
-/-! ### helper lemmas: styles of the pieces of a panel -/
-
-theorem individualLines_style (v : Bool) (s : HvTrad ℝ) :
-    ∀ x ∈ individualLines v s, x.style = (if v then StyleClass.acceptedCurve else StyleClass.rejectedCurve) := by
-  intro x hx
-  unfold individualLines curveLines at hx
-  cases v <;> simp only [if_true, if_false, Bool.false_eq_true, List.mem_map] at hx ⊢ <;>
-    (obtain ⟨r, _, rfl⟩ := hx; rfl)
-
-theorem peakMarkerLines_style (v : Bool) (s : HvTrad ℝ) :
-    ∀ x ∈ peakMarkerLines v s,
-      x.style = (if v then StyleClass.peakIndividualValid else StyleClass.peakIndividualInvalid) := by
-  intro x hx
-  unfold peakMarkerLines at hx
-  cases v <;> simp only [if_true, if_false, Bool.false_eq_true] at hx ⊢ <;> split at hx
-  · cases hx
-  · rw [List.mem_singleton] at hx
-    rw [hx]
-  · cases hx
-  · rw [List.mem_singleton] at hx
-    rw [hx]
-
-/-- the four style classes that show statistics -/
-def IsStatStyle (c : StyleClass) : Prop :=
-  c = .meanCurve ∨ c = .stdCurve ∨ c = .fnBand ∨ c = .peakMeanCurve
-
-theorem meanStdLines_style (o : PanelOpts) (st : PanelStats ℝ) (l : List (Line ℝ)) (h : meanStdLines o st = .ok l) :
-    ∀ x ∈ l, IsStatStyle x.style := by
-  unfold meanStdLines at h
-  split at h
-  · simp only [bind, Except.bind] at h
-    split at h
-    · cases h
-    · split at h
-      · simp only [pure, Except.pure, Except.ok.injEq] at h
-        subst h
-        intro x hx
-        rw [List.mem_singleton] at hx
-        subst hx
-        exact Or.inl rfl
-      · split at h
-        · cases h
-        · split at h
-          · cases h
-          · simp only [pure, Except.pure, Except.ok.injEq] at h
-            subst h
-            intro x hx
-            simp only [List.mem_cons, List.not_mem_nil, or_false] at hx
-            rcases hx with rfl | rfl | rfl
-            · exact Or.inl rfl
-            · exact Or.inr (Or.inl rfl)
-            · exact Or.inr (Or.inl rfl)
-  · simp only [pure, Except.pure, Except.ok.injEq] at h
-    subst h
-    intro x hx
-    cases hx
-
-theorem fnBandLines_style (o : PanelOpts) (st : PanelStats ℝ) (l : List (Line ℝ)) (h : fnBandLines o st = .ok l) :
-    ∀ x ∈ l, IsStatStyle x.style := by
-  unfold fnBandLines at h
-  split at h
-  · simp only [bind, Except.bind] at h
-    split at h
-    · cases h
-    · split at h
-      · cases h
-      · simp only [pure, Except.pure, Except.ok.injEq] at h
-        subst h
-        intro x hx
-        rw [List.mem_singleton] at hx
-        subst hx
-        exact Or.inr (Or.inr (Or.inl rfl))
-  · simp only [pure, Except.pure, Except.ok.injEq] at h
-    subst h
-    intro x hx
-    cases hx
-end HV.C20
-
-
-theorem peakMeanLine_eq (d : Dist) (st : PanelStats ℝ) (l : List (Line ℝ)) (h : peakMeanLine d st = .ok l) :
-    ∃ p, st.meanCurvePeak d = .ok p ∧
-      l = [{ style := .peakMeanCurve, x := [some p.1], y := [some p.2] }] := by
-  unfold peakMeanLine at h
-  cases h1 : st.meanCurvePeak d with
-  | error e => simp [h1, bind, Except.bind] at h
-  | ok p =>
-    simp only [h1, bind, Except.bind, pure, Except.pure, Except.ok.injEq] at h
-    exact ⟨p, rfl, h.symm⟩
-
-theorem peakMeanLines_style (o : PanelOpts) (st : PanelStats ℝ) (l : List (Line ℝ)) (h : peakMeanLines o st = .ok l) :
-    ∀ x ∈ l, IsStatStyle x.style := by
-  unfold peakMeanLines at h
-  split at h
-  · obtain ⟨p, _, rfl⟩ := peakMeanLine_eq _ _ _ h
-    intro x hx
-    rw [List.mem_singleton] at hx
-    subst hx
-    exact Or.inr (Or.inr (Or.inr rfl))
-  · simp only [pure, Except.pure, Except.ok.injEq] at h
-    subst h
-    intro x hx
-    cases hx
-
-/-- decomposition of the statistics artists -/
-theorem statLines_ok (o : PanelOpts) (st : PanelStats ℝ) (l : List (Line ℝ)) (h : statLines o st = .ok l) :
-    ∃ l3 l4 l5, meanStdLines o st = .ok l3 ∧ fnBandLines o st = .ok l4 ∧ peakMeanLines o st = .ok l5 ∧
-      l = l3 ++ l4 ++ l5 := by
-  unfold statLines at h
-  cases h3 : meanStdLines o st with
-  | error e => simp [h3, bind, Except.bind] at h
-  | ok l3 =>
-    cases h4 : fnBandLines o st with
-    | error e => simp [h3, h4, bind, Except.bind] at h
-    | ok l4 =>
-      cases h5 : peakMeanLines o st with
-      | error e => simp [h3, h4, h5, bind, Except.bind] at h
-      | ok l5 =>
-        simp only [h3, h4, h5, bind, Except.bind, pure, Except.pure, Except.ok.injEq] at h
-        exact ⟨l3, l4, l5, rfl, rfl, rfl, h.symm⟩
-
-theorem statLines_style (o : PanelOpts) (st : PanelStats ℝ) (l : List (Line ℝ)) (h : statLines o st = .ok l) :
-    ∀ x ∈ l, IsStatStyle x.style := by
-  obtain ⟨l3, l4, l5, h3, h4, h5, rfl⟩ := statLines_ok o st l h
-  intro x hx
-  simp only [List.mem_append] at hx
-  rcases hx with (hx | hx) | hx
-  · exact meanStdLines_style o st l3 h3 x hx
-  · exact fnBandLines_style o st l4 h4 x hx
-  · exact peakMeanLines_style o st l5 h5 x hx
-
-/-- decomposition of a successfully drawn panel, in drawing order -/
-theorem panelLinesOf_ok (o : PanelOpts) (hs : List (HvTrad ℝ)) (st : PanelStats ℝ) (ls : List (Line ℝ))
-    (h : panelLinesOf o hs st = .ok ls) :
-    ∃ sl, statLines o st = .ok sl ∧
-      ls = (if o.validCurves then hs.flatMap (individualLines true) else []) ++
-           (if o.invalidCurves then hs.flatMap (individualLines false) else []) ++ sl ++
-           (if o.peakValid then hs.flatMap (peakMarkerLines true) else []) ++
-           (if o.peakInvalid then hs.flatMap (peakMarkerLines false) else []) := by
-  unfold panelLinesOf at h
-  cases hsl : statLines o st with
-  | error e => simp [hsl, bind, Except.bind] at h
-  | ok sl =>
-    simp only [hsl, bind, Except.bind, pure, Except.pure, Except.ok.injEq] at h
-    exact ⟨sl, rfl, h.symm⟩
-
-theorem filter_all {β : Type} (p : β → Bool) (l : List β) (h : ∀ x ∈ l, p x = true) : l.filter p = l :=
-  List.filter_eq_self.mpr h
-
-theorem filter_none {β : Type} (p : β → Bool) (l : List β) (h : ∀ x ∈ l, p x = false) : l.filter p = [] := by
-  rw [List.filter_eq_nil_iff]
-  intro x hx
-  simp [h x hx]
-
-theorem mem_flatMap_style (hs : List (HvTrad ℝ)) (f : HvTrad ℝ → List (Line ℝ)) (c : StyleClass)
-    (hf : ∀ s, ∀ x ∈ f s, x.style = c) : ∀ x ∈ hs.flatMap f, x.style = c := by
-  intro x hx
-  rw [List.mem_flatMap] at hx
-  obtain ⟨s, _, hx⟩ := hx
-  exact hf s x hx
-
-/-- filtering a successfully drawn panel by one of the two window-curve styles -/
-theorem filter_curve_style (o : PanelOpts) (hs : List (HvTrad ℝ)) (st : PanelStats ℝ) (ls : List (Line ℝ))
-    (h : panelLinesOf o hs st = .ok ls) (v : Bool) :
-    ls.filter (fun l => decide (l.style = (if v then StyleClass.acceptedCurve else StyleClass.rejectedCurve))) =
-      (if (if v then o.validCurves else o.invalidCurves) then hs.flatMap (individualLines v) else []) := by
-  obtain ⟨sl, hsl, rfl⟩ := panelLinesOf_ok o hs st ls h
-  have hstat := statLines_style o st sl hsl
-  have hI : ∀ w, ∀ x ∈ hs.flatMap (individualLines w), x.style = (if w then StyleClass.acceptedCurve else StyleClass.rejectedCurve) :=
-    fun w => mem_flatMap_style hs _ _ (fun s => individualLines_style w s)
-  have hP : ∀ w, ∀ x ∈ hs.flatMap (peakMarkerLines w), x.style = (if w then StyleClass.peakIndividualValid else StyleClass.peakIndividualInvalid) :=
-    fun w => mem_flatMap_style hs _ _ (fun s => peakMarkerLines_style w s)
-  simp only [List.filter_append]
-  have e3 : sl.filter (fun l => decide (l.style = (if v then StyleClass.acceptedCurve else StyleClass.rejectedCurve))) = [] := by
-    apply filter_none
-    intro x hx
-    rcases hstat x hx with h | h | h | h <;> cases v <;> simp [h]
-  have e6 : (if o.peakValid then hs.flatMap (peakMarkerLines true) else []).filter
-      (fun l => decide (l.style = (if v then StyleClass.acceptedCurve else StyleClass.rejectedCurve))) = [] := by
-    apply filter_none
-    intro x hx
-    split at hx
-    · have := hP true x hx
-      cases v <;> simp [this]
-    · cases hx
-  have e7 : (if o.peakInvalid then hs.flatMap (peakMarkerLines false) else []).filter
-      (fun l => decide (l.style = (if v then StyleClass.acceptedCurve else StyleClass.rejectedCurve))) = [] := by
-    apply filter_none
-    intro x hx
-    split at hx
-    · have := hP false x hx
-      cases v <;> simp [this]
-    · cases hx
-  rw [e3, e6, e7]
-  cases v
-  · -- rejected style
-    have e1 : (if o.validCurves then hs.flatMap (individualLines true) else []).filter
-        (fun l => decide (l.style = (if false then StyleClass.acceptedCurve else StyleClass.rejectedCurve))) = [] := by
-      apply filter_none
-      intro x hx
-      split at hx
-      · have := hI true x hx
-        simp [this]
-      · cases hx
-    have e2 : (if o.invalidCurves then hs.flatMap (individualLines false) else []).filter
-        (fun l => decide (l.style = (if false then StyleClass.acceptedCurve else StyleClass.rejectedCurve))) =
-        (if o.invalidCurves then hs.flatMap (individualLines false) else []) := by
-      apply filter_all
-      intro x hx
-      split at hx
-      · have := hI false x hx
-        simp [this]
-      · cases hx
-    rw [e1, e2]
-    simp
-  · have e1 : (if o.validCurves then hs.flatMap (individualLines true) else []).filter
-        (fun l => decide (l.style = (if true then StyleClass.acceptedCurve else StyleClass.rejectedCurve))) =
-        (if o.validCurves then hs.flatMap (individualLines true) else []) := by
-      apply filter_all
-      intro x hx
-      split at hx
-      · have := hI true x hx
-        simp [this]
-      · cases hx
-    have e2 : (if o.invalidCurves then hs.flatMap (individualLines false) else []).filter
-        (fun l => decide (l.style = (if true then StyleClass.acceptedCurve else StyleClass.rejectedCurve))) = [] := by
-      apply filter_none
-      intro x hx
-      split at hx
-      · have := hI false x hx
-        simp [this]
-      · cases hx
-    rw [e1, e2]
-    simp
-
 /-- the artist that carries window `r` in style `c` -/
 def windowLine (c : StyleClass) (freq r : List ℝ) : Line ℝ := { style := c, x := freq.map some, y := r.map some }
-
-theorem maskSel_length {β : Type} (l : List β) (m : List Bool) (h : m.length = l.length) :
-    (maskSel l m).length = countTrue m := by
-  unfold maskSel countTrue
-  induction l generalizing m with
-  | nil => cases m <;> simp at h ⊢
-  | cons a t ih =>
-    cases m with
-    | nil => simp at h
-    | cons b bs =>
-      have := ih bs (by simpa using h)
-      cases b <;> simp [this]
-
-theorem countTrue_notMask (m : List Bool) : countTrue (notMask m) = m.length - countTrue m := by
-  unfold countTrue notMask
-  induction m with
-  | nil => rfl
-  | cons b bs ih =>
-    have hle : (bs.filter id).length ≤ bs.length := List.length_filter_le _ _
-    cases b <;> simp [ih] <;> omega
 
 /-- **One accepted-style line per accepted window and one rejected-style line per rejected window, each
 carrying that window's curve, in window order** (traditional object, every option combination, whenever the
@@ -297,7 +44,7 @@ theorem lines_count (o : PanelOpts) (s : HvTrad ℝ) (ls : List (Line ℝ)) (h :
   · intro hv
     rw [h2, if_pos hv, maskSel_length _ _ (by simpa [notMask] using hlen), countTrue_notMask, hlen]
 
-/-- azimuthal object: the accepted-/rejected-style artists are those of the azimuths, azimuth by azimuth -/
+/-- azimuthal object: the accepted-style and rejected-style artists are those of the azimuths, azimuth by azimuth -/
 theorem lines_partition_az (o : PanelOpts) (s : HvAz ℝ) (ls : List (Line ℝ)) (h : panelLinesAz o s = .ok ls) :
     ls.filter (fun l => decide (l.style = .acceptedCurve)) =
       (if o.validCurves then s.hvsrs.flatMap (fun a => maskSel (a.rows.map (windowLine .acceptedCurve a.freq)) a.vWin) else []) ∧
@@ -324,7 +71,7 @@ theorem lines_partition_az (o : PanelOpts) (s : HvAz ℝ) (ls : List (Line ℝ))
 Whenever the panel of a traditional object is drawn: the artists of the four statistics styles are, in order,
 the mean curve `mean_curve(d_mc)`, `nth_std_curve(±1, d_mc)`, the band `[fn−, fn−, fn+, fn+]` with
 `fn± = nth_std_fn_frequency(±1, d_fn)` and the marker at `mean_curve_peak(d_mc)`; the individual peak markers
-hold the stored peaks at the positions of the peak mask. -/
+hold the stored peaks at the positions of the peak mask (`peakMarkerLines`). -/
 theorem stat_artists (o : PanelOpts) (s : HvTrad ℝ) (ls : List (Line ℝ)) (h : panelLines o s = .ok ls) :
     (o.meanCurve = true → ∃ sc, s.stdCurve o.dMc = .ok sc ∧
       ls.filter (fun l => decide (l.style = .meanCurve)) =
@@ -344,244 +91,103 @@ theorem stat_artists (o : PanelOpts) (s : HvTrad ℝ) (ls : List (Line ℝ)) (h 
     ls.filter (fun l => decide (l.style = .peakIndividualInvalid)) =
       (if o.peakInvalid then peakMarkerLines false s else []) := by
   unfold panelLines at h
-  obtain ⟨sl, hsl, rfl⟩ := panelLinesOf_ok o [s] (tradStats s) ls h
-  obtain ⟨l3, l4, l5, h3, h4, h5, rfl⟩ := statLines_ok o (tradStats s) sl hsl
-  simp only [List.flatMap_cons, List.flatMap_nil, List.append_nil]
-  -- styles of the non-statistics pieces
-  have hA := individualLines_style true s
-  have hR := individualLines_style false s
-  have hV := peakMarkerLines_style true s
-  have hI := peakMarkerLines_style false s
-  simp only [if_true, if_false, Bool.false_eq_true] at hA hR hV hI
-  have f1 : ∀ c : StyleClass, c ≠ .acceptedCurve →
-      (if o.validCurves then individualLines true s else []).filter (fun l => decide (l.style = c)) = [] := by
-    intro c hc
-    apply filter_none
-    intro x hx
-    split at hx
-    · simp [hA x hx, Ne.symm hc]
-    · cases hx
-  have f2 : ∀ c : StyleClass, c ≠ .rejectedCurve →
-      (if o.invalidCurves then individualLines false s else []).filter (fun l => decide (l.style = c)) = [] := by
-    intro c hc
-    apply filter_none
-    intro x hx
-    split at hx
-    · simp [hR x hx, Ne.symm hc]
-    · cases hx
-  have f6 : ∀ c : StyleClass, c ≠ .peakIndividualValid →
-      (if o.peakValid then peakMarkerLines true s else []).filter (fun l => decide (l.style = c)) = [] := by
-    intro c hc
-    apply filter_none
-    intro x hx
-    split at hx
-    · simp [hV x hx, Ne.symm hc]
-    · cases hx
-  have f7 : ∀ c : StyleClass, c ≠ .peakIndividualInvalid →
-      (if o.peakInvalid then peakMarkerLines false s else []).filter (fun l => decide (l.style = c)) = [] := by
-    intro c hc
-    apply filter_none
-    intro x hx
-    split at hx
-    · simp [hI x hx, Ne.symm hc]
-    · cases hx
-  have g6 : (if o.peakValid then peakMarkerLines true s else []).filter
-      (fun l => decide (l.style = StyleClass.peakIndividualValid)) = (if o.peakValid then peakMarkerLines true s else []) := by
-    apply filter_all
-    intro x hx
-    split at hx
-    · simp [hV x hx]
-    · cases hx
-  have g7 : (if o.peakInvalid then peakMarkerLines false s else []).filter
-      (fun l => decide (l.style = StyleClass.peakIndividualInvalid)) = (if o.peakInvalid then peakMarkerLines false s else []) := by
-    apply filter_all
-    intro x hx
-    split at hx
-    · simp [hI x hx]
-    · cases hx
-  have s3 := meanStdLines_style o _ l3 h3
-  have s4 := fnBandLines_style o _ l4 h4
-  have s5 := peakMeanLines_style o _ l5 h5
-  have statNone : ∀ (l : List (Line ℝ)), (∀ x ∈ l, IsStatStyle x.style) → ∀ c : StyleClass, ¬ IsStatStyle c →
-      l.filter (fun l => decide (l.style = c)) = [] := by
-    intro l hl c hc
-    apply filter_none
-    intro x hx
-    have := hl x hx
-    simp only [decide_eq_false_iff_not]
-    intro e
-    exact hc (e ▸ this)
-  refine ⟨?_, ?_, ?_, ?_, ?_⟩
-  · -- mean and std curves
-    intro hm
+  obtain ⟨g1, g2, g3⟩ := stat_artists_of o [s] (tradStats s) rfl ls h
+  have p1 := filter_peak_style o [s] (tradStats s) ls h true
+  have p2 := filter_peak_style o [s] (tradStats s) ls h false
+  simp only [if_true, if_false, Bool.false_eq_true, List.flatMap_cons, List.flatMap_nil, List.append_nil] at p1 p2
+  refine ⟨?_, ?_, g3, p1, p2⟩
+  · intro hm
+    obtain ⟨mc, sc, hmc, hsc, e1, e2⟩ := g1 hm
+    have : mc = s.meanCurve o.dMc := by
+      simp only [tradStats, Except.ok.injEq] at hmc
+      exact hmc.symm
+    subst this
+    exact ⟨sc, hsc, e1, e2⟩
+  · intro hf
+    obtain ⟨lo, hi, hlo, hhi, e⟩ := g2 hf
+    simp only [tradStats, Except.ok.injEq] at hlo hhi
+    rw [e, ← hlo, ← hhi]
+
+/-- … and for an azimuthal object the same artists hold the Cheng et al. statistics of `Model/HvAz.lean` (C11):
+weighted mean / std curves, the band from the weighted `fn` statistics, the peak of the weighted mean curve;
+the individual peak markers are drawn azimuth by azimuth. -/
+theorem stat_artists_az (o : PanelOpts) (s : HvAz ℝ) (ls : List (Line ℝ)) (h : panelLinesAz o s = .ok ls) :
+    (o.meanCurve = true → ∃ mc sc, s.meanCurve o.dMc = .ok mc ∧ s.stdCurve o.dMc = .ok sc ∧
+      ls.filter (fun l => decide (l.style = .meanCurve)) =
+        [{ style := .meanCurve, x := s.freq.map some, y := mc }] ∧
+      ls.filter (fun l => decide (l.style = .stdCurve)) =
+        [{ style := .stdCurve, x := s.freq.map some, y := nthCurve 1 o.dMc mc sc },
+         { style := .stdCurve, x := s.freq.map some, y := nthCurve (-1) o.dMc mc sc }]) ∧
+    (o.freqStd = true → ∃ lo hi, s.nthStdFn (-1) o.dFn = .ok lo ∧ s.nthStdFn 1 o.dFn = .ok hi ∧
+      ls.filter (fun l => decide (l.style = .fnBand)) =
+        [{ style := .fnBand, x := [lo, lo, hi, hi], y := [some 0, some 100, some 100, some 0] }]) ∧
+    (o.peakMean = true → ∃ p, s.meanCurvePeak o.dMc = .ok p ∧
+      ls.filter (fun l => decide (l.style = .peakMeanCurve)) =
+        [{ style := .peakMeanCurve, x := [some p.1], y := [some p.2] }]) ∧
+    ls.filter (fun l => decide (l.style = .peakIndividualValid)) =
+      (if o.peakValid then s.hvsrs.flatMap (peakMarkerLines true) else []) ∧
+    ls.filter (fun l => decide (l.style = .peakIndividualInvalid)) =
+      (if o.peakInvalid then s.hvsrs.flatMap (peakMarkerLines false) else []) := by
+  unfold panelLinesAz at h
+  obtain ⟨g1, g2, g3⟩ := stat_artists_of o s.hvsrs (azStats s) rfl ls h
+  have p1 := filter_peak_style o s.hvsrs (azStats s) ls h true
+  have p2 := filter_peak_style o s.hvsrs (azStats s) ls h false
+  simp only [if_true, if_false, Bool.false_eq_true] at p1 p2
+  exact ⟨g1, g2, g3, p1, p2⟩
+
+/-- a diffuse-field object: the panel shows the curve itself as the mean curve and its peak, nothing else -/
+theorem panel_diffuse (o : PanelOpts) (freq amp : List ℝ) (ls : List (Line ℝ))
+    (h : panelLinesDiffuse o freq amp = .ok ls) :
+    ls = (if o.meanCurve then [{ style := .meanCurve, x := freq.map some, y := amp.map some }] else []) ++
+         (if o.peakMean then
+            match findPeakBounded freq amp (none, none) with
+            | some p => [{ style := .peakMeanCurve, x := [some p.1], y := [some p.2] }]
+            | none => []
+          else []) := by
+  unfold panelLinesDiffuse at h
+  obtain ⟨sl, hsl, rfl⟩ := panelLinesOf_ok o [] (diffuseStats freq amp) ls h
+  obtain ⟨l3, l4, l5, h3, h4, h5, rfl⟩ := statLines_ok o _ sl hsl
+  simp only [List.flatMap_nil, ite_self, List.nil_append, List.append_nil]
+  have e3 : l3 = (if o.meanCurve then [{ style := .meanCurve, x := freq.map some, y := amp.map some }] else []) := by
     unfold meanStdLines at h3
-    rw [if_pos hm] at h3
-    simp only [tradStats, bind, Except.bind, Bool.false_eq_true, if_false] at h3
-    unfold PanelStats.nthStdCurve at h3
-    simp only [bind, Except.bind] at h3
-    cases hsc : s.stdCurve o.dMc with
-    | error e => simp [hsc] at h3
-    | ok sc =>
-      simp only [hsc, pure, Except.pure, Except.ok.injEq] at h3
-      subst h3
-      refine ⟨sc, rfl, ?_, ?_⟩
-      · simp only [List.filter_append]
-        rw [f1 _ (by decide), f2 _ (by decide), f6 _ (by decide), f7 _ (by decide)]
-        have e4 : l4.filter (fun l => decide (l.style = StyleClass.meanCurve)) = [] := by
-          apply filter_none
-          intro x hx
-          unfold fnBandLines at h4
-          split at h4
-          · simp only [tradStats, bind, Except.bind, pure, Except.pure, Except.ok.injEq] at h4
-            subst h4
-            rw [List.mem_singleton] at hx
-            subst hx
-            simp
-          · simp only [pure, Except.pure, Except.ok.injEq] at h4
-            subst h4
-            cases hx
-        have e5 : l5.filter (fun l => decide (l.style = StyleClass.meanCurve)) = [] := by
-          apply filter_none
-          intro x hx
-          unfold peakMeanLines at h5
-          split at h5
-          · obtain ⟨p, _, rfl⟩ := peakMeanLine_eq _ _ _ h5
-            rw [List.mem_singleton] at hx
-            subst hx
-            simp
-          · simp only [pure, Except.pure, Except.ok.injEq] at h5
-            subst h5
-            cases hx
-        rw [e4, e5]
-        simp [ofNat_real]
-      · simp only [List.filter_append]
-        rw [f1 _ (by decide), f2 _ (by decide), f6 _ (by decide), f7 _ (by decide)]
-        have e4 : l4.filter (fun l => decide (l.style = StyleClass.stdCurve)) = [] := by
-          apply filter_none
-          intro x hx
-          unfold fnBandLines at h4
-          split at h4
-          · simp only [tradStats, bind, Except.bind, pure, Except.pure, Except.ok.injEq] at h4
-            subst h4
-            rw [List.mem_singleton] at hx
-            subst hx
-            simp
-          · simp only [pure, Except.pure, Except.ok.injEq] at h4
-            subst h4
-            cases hx
-        have e5 : l5.filter (fun l => decide (l.style = StyleClass.stdCurve)) = [] := by
-          apply filter_none
-          intro x hx
-          unfold peakMeanLines at h5
-          split at h5
-          · obtain ⟨p, _, rfl⟩ := peakMeanLine_eq _ _ _ h5
-            rw [List.mem_singleton] at hx
-            subst hx
-            simp
-          · simp only [pure, Except.pure, Except.ok.injEq] at h5
-            subst h5
-            cases hx
-        rw [e4, e5]
-        simp [ofNat_real]
-  · -- fn band
-    intro hf
+    split at h3
+    · rename_i hm
+      simp only [diffuseStats, bind, Except.bind, if_true, pure, Except.pure, Except.ok.injEq] at h3
+      rw [if_pos hm]; exact h3.symm
+    · rename_i hm
+      simp only [pure, Except.pure, Except.ok.injEq] at h3
+      rw [if_neg hm]; exact h3.symm
+  have e4 : l4 = [] := by
     unfold fnBandLines at h4
-    simp only [hf, tradStats, Bool.not_false, Bool.and_true, if_true, bind, Except.bind, pure, Except.pure,
+    simp only [diffuseStats, Bool.not_true, Bool.and_false, Bool.false_eq_true, if_false, pure, Except.pure,
       Except.ok.injEq] at h4
-    subst h4
-    simp only [List.filter_append]
-    rw [f1 _ (by decide), f2 _ (by decide), f6 _ (by decide), f7 _ (by decide)]
-    have e3 : l3.filter (fun l => decide (l.style = StyleClass.fnBand)) = [] := by
-      apply filter_none
-      intro x hx
-      unfold meanStdLines at h3
-      split at h3
-      · simp only [tradStats, bind, Except.bind, Bool.false_eq_true, if_false] at h3
-        unfold PanelStats.nthStdCurve at h3
-        simp only [bind, Except.bind] at h3
-        cases hsc : s.stdCurve o.dMc with
-        | error e => simp [hsc] at h3
-        | ok sc =>
-          simp only [hsc, pure, Except.pure, Except.ok.injEq] at h3
-          subst h3
-          simp only [List.mem_cons, List.not_mem_nil, or_false] at hx
-          rcases hx with rfl | rfl | rfl <;> simp
-      · simp only [pure, Except.pure, Except.ok.injEq] at h3
-        subst h3
-        cases hx
-    have e5 : l5.filter (fun l => decide (l.style = StyleClass.fnBand)) = [] := by
-      apply filter_none
-      intro x hx
-      unfold peakMeanLines at h5
-      split at h5
-      · obtain ⟨p, _, rfl⟩ := peakMeanLine_eq _ _ _ h5
-        rw [List.mem_singleton] at hx
-        subst hx
-        simp
-      · simp only [pure, Except.pure, Except.ok.injEq] at h5
-        subst h5
-        cases hx
-    rw [e3, e5]
-    simp [ofNat_real]
-  · -- peak of the mean curve
-    intro hp
+    exact h4.symm
+  have e5 : l5 = (if o.peakMean then
+            match findPeakBounded freq amp (none, none) with
+            | some p => [{ style := .peakMeanCurve, x := [some p.1], y := [some p.2] }]
+            | none => []
+          else []) := by
     unfold peakMeanLines at h5
-    rw [if_pos hp] at h5
-    obtain ⟨p, hpk, rfl⟩ := peakMeanLine_eq _ _ _ h5
-    refine ⟨p, hpk, ?_⟩
-    simp only [List.filter_append]
-    rw [f1 _ (by decide), f2 _ (by decide), f6 _ (by decide), f7 _ (by decide)]
-    have e3 : l3.filter (fun l => decide (l.style = StyleClass.peakMeanCurve)) = [] := by
-      apply filter_none
-      intro x hx
-      unfold meanStdLines at h3
-      split at h3
-      · simp only [tradStats, bind, Except.bind, Bool.false_eq_true, if_false] at h3
-        unfold PanelStats.nthStdCurve at h3
-        simp only [bind, Except.bind] at h3
-        cases hsc : s.stdCurve o.dMc with
-        | error e => simp [hsc] at h3
-        | ok sc =>
-          simp only [hsc, pure, Except.pure, Except.ok.injEq] at h3
-          subst h3
-          simp only [List.mem_cons, List.not_mem_nil, or_false] at hx
-          rcases hx with rfl | rfl | rfl <;> simp
-      · simp only [pure, Except.pure, Except.ok.injEq] at h3
-        subst h3
-        cases hx
-    have e4 : l4.filter (fun l => decide (l.style = StyleClass.peakMeanCurve)) = [] := by
-      apply filter_none
-      intro x hx
-      unfold fnBandLines at h4
-      split at h4
-      · simp only [tradStats, bind, Except.bind, pure, Except.pure, Except.ok.injEq] at h4
-        subst h4
-        rw [List.mem_singleton] at hx
-        subst hx
-        simp
-      · simp only [pure, Except.pure, Except.ok.injEq] at h4
-        subst h4
-        cases hx
-    rw [e3, e4]
-    simp
-  · simp only [List.filter_append]
-    rw [f1 _ (by decide), f2 _ (by decide), f7 _ (by decide), g6,
-      statNone l3 s3 _ (by unfold IsStatStyle; decide), statNone l4 s4 _ (by unfold IsStatStyle; decide),
-      statNone l5 s5 _ (by unfold IsStatStyle; decide)]
-    simp
-  · simp only [List.filter_append]
-    rw [f1 _ (by decide), f2 _ (by decide), f6 _ (by decide), g7,
-      statNone l3 s3 _ (by unfold IsStatStyle; decide), statNone l4 s4 _ (by unfold IsStatStyle; decide),
-      statNone l5 s5 _ (by unfold IsStatStyle; decide)]
-    simp
+    split at h5
+    · rename_i hpm
+      obtain ⟨p, hp, rfl⟩ := peakMeanLine_eq _ _ _ h5
+      simp only [diffuseStats] at hp
+      split at hp
+      · cases hp
+      · rename_i q hq
+        injection hp with hp
+        subst hp
+        simp [hq, hpm]
+    · rename_i hpm
+      simp only [pure, Except.pure, Except.ok.injEq] at h5
+      rw [if_neg hpm]; exact h5.symm
+  rw [e3, e4, e5]
+  simp
 
 /-! ### Read-only -/
 
 /-- a panel (any plotting callee) that hands the object back as it received it -/
 def ReadOnly {β : Type} (p : Panel ℝ β) : Prop := ∀ s, (p s).1 = s
-
-theorem restore_setAll_save (s : HvTrad ℝ) : (ppRestore (ppSetAll (ppSave s))).obj = s := by
-  cases s; rfl
 
 /-- **`prepost_restores`.** With read-only panels the object that `plot_pre_and_post_rejection` leaves behind is the
 object it was given — every field, both masks — on *every* exit: normal, exception in the second panel, and
@@ -657,9 +263,6 @@ theorem plot_readonly_az (o : AzSummaryOpts) (s : HvAz ℝ) :
 
 /-! ### Summary table -/
 
-theorem recipO_real (x : Option ℝ) : recipO x = x.map (fun v => 1 / v) := by
-  cases x <;> simp [recipO, ofNat_real]
-
 /-- row 0 of the table = (mean | median, std, −1σ, +1σ) of fn — the object's statistics -/
 theorem fn_row (d : Dist) (s : HvTrad ℝ) :
     (summaryRows d s)[0]? = some [s.meanFn d, s.stdFn d, s.nthStdFn (-1) d, s.nthStdFn 1 d] ∧
@@ -683,12 +286,12 @@ theorem period_row (s : HvTrad ℝ) (h2 : 2 ≤ (somes s.peakFreqs).length) :
     show nanmeanW .lognormal (((somes s.peakFreqs).map (fun f => 1 / f)).map some) none = _
     rw [C05.reciprocal_median _ hne]
     unfold HvTrad.meanFn
-    rw [C05.nopeak_excluded_mean]
+    rw [C05.nopeak_excluded_mean .lognormal s.peakFreqs]
   have hsig : sigT = s.stdFn .lognormal := by
     show nanstdW .lognormal (((somes s.peakFreqs).map (fun f => 1 / f)).map some) none .nist = _
     rw [C05.reciprocal_sigma _ h2]
     unfold HvTrad.stdFn
-    rw [C05.nopeak_excluded_std _ _ h2]
+    rw [C05.nopeak_excluded_std .lognormal s.peakFreqs h2]
   obtain ⟨M, hM⟩ : ∃ M, s.meanFn .lognormal = some M := by
     unfold HvTrad.meanFn
     rw [C05.nopeak_excluded_mean, C05.mean_lognormal_eq _ hne]
@@ -698,7 +301,7 @@ theorem period_row (s : HvTrad ℝ) (h2 : 2 ≤ (somes s.peakFreqs).length) :
     rw [C05.nopeak_excluded_std _ _ h2, C05.std_lognormal_eq _ h2]
     exact ⟨_, rfl⟩
   rw [hmed, hsig, hM, hS]
-  simp only [summaryRows, statRows, List.cons_append, List.nil_append, recipO_real, Option.map_some,
+  simp only [summaryRows, statRows, hM, hS, List.cons_append, List.nil_append, recipO_real, Option.map_some,
     List.getElem?_cons_succ, List.getElem?_cons_zero, nthStdO, nthStd, ofNat_real, Nat.cast_one, exp_real, log_real]
   have e1 : 1 / Real.exp (Real.log M + -1 * S) = Real.exp (Real.log (1 / M) + 1 * S) := by
     rw [one_div, ← Real.exp_neg, one_div, Real.log_inv]
